@@ -62,7 +62,21 @@ def initval(existing):
     return Q("initval_any_int" + ("_create_on_existing" if existing else "_fresh_name"), "harness/C06_initval.c", units=SEM_UNITS, models=KM,
              hdefs=["ON_EXISTING"] if existing else [], includes=REDIR, unwindset=UW, timeout=600, funcs=FUNCS,
              bounds={"init_val": "all 2^32 pint values (symbolic)", "later_open_init_val": "all 2^32 values", "modes": "CREATE, OPEN" if not existing else "CREATE on an existing name"})
+NAME_LENS = [1, 49, 50, 51, 63, 64, 100]
+def names(n, kind=0):
+    # real name handling + real SHA-1 key over the kernel model in string-name mode (concrete names: the hash constant-folds)
+    units = {0: SEM_UNITS, 1: ["src/pshm-posix.c", "src/psysclose-unix.c"] + SEM_UNITS,
+             2: ["src/pshmbuffer.c", "src/pshm-posix.c", "src/psysclose-unix.c"] + SEM_UNITS}[kind]
+    units = units + [u for u in HASH_UNITS if u not in units]
+    return Q("names_len%d_realkey" % n, "harness/C0%d_names.c" % (6 + kind), units=units,
+             models=["models/kernel_ipc.c", "models/alloc.c", "models/verif.c", "models/libc_stub.c"],
+             hdefs=["LEN=%d" % n, "VK_REAL_NAMES"] + (["VK_PAGE=16", "VK_NPAGES=2"] if kind == 2 else []), includes=REDIR,
+             unwind=max(130, n + 30), unwindset=dict(UW, **{"pp_shm_create_handle.0": 2, "pp_shm_create_handle.1": 2}), timeout=600,
+             # heap strings longer than 64 bytes stay constant-propagated only with a larger field-sensitivity limit (measured: 60 s+ -> 2 s)
+             flags=["--max-field-sensitivity-array-size", "256"],
+             funcs=["p_semaphore_new", "p_shm_new", "p_shm_buffer_new", "p_ipc_get_platform_key"][kind:kind + 1] + ["p_ipc_get_platform_key"],
+             bounds={"name_length": n, "names": "A, A with another last character, A with another first character, an equal copy of A (concrete)"})
 def queries(tier):
     if tier == "quick":
-        return [realkey(), initval(False), initval(True), crash(3), hist(5, 3), hist(4, 3, preempt=True), hist(3, 2, kfdemo=True)]
-    return [realkey(), initval(False), initval(True), crash(4), hist(6, 3, vmax=3, timeout=3000), hist(5, 3, preempt=True, timeout=3000), hist(3, 2, kfdemo=True)]
+        return [realkey()] + [names(n) for n in NAME_LENS] + [initval(False), initval(True), crash(3), hist(5, 3), hist(4, 3, preempt=True), hist(3, 2, kfdemo=True)]
+    return [realkey()] + [names(n) for n in NAME_LENS] + [initval(False), initval(True), crash(4), hist(6, 3, vmax=3, timeout=3000), hist(5, 3, preempt=True, timeout=3000), hist(3, 2, kfdemo=True)]
